@@ -77,8 +77,8 @@ class RefCall:
 
 
 class ReqWorld(ConnWorld):
-    def __init__(self) -> None:
-        super().__init__(keepalive=1e6)
+    def __init__(self, noise: bool = False) -> None:
+        super().__init__(keepalive=1e6, noise=noise)
         self.ref: dict[str, RefCall] = {}
         self.viol: list[str] = []
         self.chunks: list[list[str]] = []
@@ -153,13 +153,15 @@ class ReqWorld(ConnWorld):
 
 class ReqHarness:
     def __init__(self, seed: str, nd: bool = True, pairs: bool = True) -> None:
+        self.noise = seed.startswith("noise:")  # the same exploration over the encrypted transport
+        seed = seed.replace("noise:", "")
         self.seed = seed
         self.nd = nd
         self.pairs = pairs
         self.can_fp = True
 
     def fresh(self) -> ReqWorld:
-        w = ReqWorld()
+        w = ReqWorld(self.noise)
         w.connect_fully()
         w.base_handlers = w.handler_table()
         w.base_waiters = w.waiters() or 0
@@ -395,7 +397,7 @@ def run(tier: str, seed: int) -> Result:
     q = tier == "quick"
     cfgs = [("", 4 if q else 5, 1 if q else 2), ("A", 3 if q else 5, 2), ("B", 3 if q else 5, 2), ("AB", 3 if q else 4, 1 if q else 2),
             ("AC", 3 if q else 4, 2), ("ABC", 3 if q else 4, 1 if q else 2), ("BD", 3 if q else 4, 1 if q else 2),
-            ("B.D", 3 if q else 4, 1 if q else 2), ("debug:AB", 3 if q else 4, 1 if q else 2)]
+            ("B.D", 3 if q else 4, 1 if q else 2), ("debug:AB", 3 if q else 4, 1 if q else 2), ("noise:AB", 3 if q else 4, 1 if q else 2)]
     budget = 100.0 if q else 1500.0
     t_end = time.monotonic() + budget
     per_cfg = []
